@@ -275,6 +275,10 @@ var ltab = map[string]func(c *lcall){
 		limpl.Dlaqr04(c.boolean(0), c.boolean(1), c.d[0], c.d[1], c.d[2], c.fl["h"], c.ld["h"], c.fl["wr"], c.fl["wi"],
 			c.d[3], c.d[4], c.fl["z"], c.ld["z"], c.fl["work"], c.lwork, 1)
 	},
+	"Dlaqr23": func(c *lcall) {
+		limpl.Dlaqr23(c.boolean(0), c.boolean(1), c.d[0], c.d[1], c.d[2], c.d[3], c.fl["h"], c.ld["h"], c.d[4], c.d[5], c.fl["z"], c.ld["z"],
+			c.fl["sr"], c.fl["si"], c.fl["v"], c.ld["v"], c.d[6], c.fl["t"], c.ld["t"], c.d[7], c.fl["wv"], c.ld["wv"], c.fl["work"], c.lwork, c.f[2])
+	},
 	"Dtrevc3": func(c *lcall) {
 		limpl.Dtrevc3(c.evside(0), c.evhowmany(1), c.bv["selected"], c.d[0], c.fl["t"], c.ld["t"], c.fl["vl"], c.ld["vl"],
 			c.fl["vr"], c.ld["vr"], c.d[1], c.fl["work"], c.lwork)
